@@ -142,6 +142,11 @@ class Emitter:
     def note_proto(self, cname, ret, params, src, variadic=False):
         old = self.protos.get(cname)
         new = (ret, tuple(params), variadic)
+
+        def canon(p):  # size_t and unsigned long are the same C type on the LP64 target: not a collision
+            return (re.sub(r"\bsize_t\b", "unsigned long", p[0]), tuple(re.sub(r"\bsize_t\b", "unsigned long", x) for x in p[1]), p[2])
+        if old and canon(old[:3]) == canon(new):
+            return
         if old and (old[0], old[1], old[2]) != new:
             raise Unsupported("C name collision for %s: %s vs %s (add a rename in the spec config)" %
                               (cname, old[:3], new))
@@ -166,7 +171,44 @@ class Emitter:
         m = getattr(self, "e_" + k, None)
         if m is None:
             raise Unsupported("expression kind %s" % k)
+        if k in ("CallExpr", "CXXMemberCallExpr"):
+            return self.nested_call(n, m)
+        if k == "ConditionalOperator" or (k == "BinaryOperator" and n.get("opcode") in ("&&", "||")):
+            self.lazy_depth = getattr(self, "lazy_depth", 0) + 1
+            try:
+                return m(n)
+            finally:
+                self.lazy_depth -= 1
         return m(n)
+
+    def nested_call(self, n, m):
+        """A call to a non-model function that is evaluated INSIDE another call (as its argument), e.g.
+        memcpy(f(x), src, n): the exception model's `if (vf_exc) return` after the whole statement would come too
+        late (the outer call would run on f's dummy return value, whereas the real program has already aborted).
+        Such an inner call is hoisted into a temporary followed by the propagation test. Not done under ?: && ||
+        (evaluation there is conditional) nor for calls returning references/void/structs."""
+        depth = getattr(self, "call_depth", 0)
+        self.call_depth = depth + 1
+        before = self.callflag
+        self.callflag = False
+        try:
+            e = m(n)
+        finally:
+            self.call_depth = depth
+        mine, self.callflag = self.callflag, (before or self.callflag)
+        if not (mine and depth > 0 and getattr(self, "lazy_depth", 0) == 0 and self.cfg.get("exceptions", True)):
+            return e
+        if n.get("valueCategory") != "prvalue" or e.startswith("(*"):
+            return e
+        try:
+            ct = self.ctype(n)
+        except Unsupported:
+            return e
+        if ct == "void" or (ct.startswith("struct ") and not ct.endswith("*")):
+            return e
+        tmp = self.new_tmp(ct, e)
+        self.pre.append("if (vf_exc) " + self.ret_zero())
+        return tmp
 
     def e_transparent(self, n):
         return self.E(n["inner"][0])
